@@ -1,0 +1,71 @@
+//go:build verif
+
+package controlsvc
+
+// Contracts for the deductive checker in /verif (comments only; compiled to nothing).
+
+//@ monitor (s *Server) controlFuncLock
+//@   protects controlTypes
+//@   inv TYPES: s.controlTypes != nil
+
+//@ structinv (s *Server)
+//@   s.nc != nil
+//@ immutable Server.nc
+
+//@ func writeToConnWithLog
+//@   tags C08
+//@   safety
+//@   requires conn != nil && nc != nil
+
+//@ func errorNormal
+//@   tags C08
+//@   safety
+//@   requires nc != nil
+
+//@ func NewSockControl
+//@   tags C08
+//@   modifies nothing
+//@   ensures result != nil
+
+//@ iface ControlCommandType.InitFromString
+//@   params ct, params
+//@   ensures PAIR: result.1 == nil ==> result.0 != nil
+//@ iface ControlCommandType.InitFromJSON
+//@   params ct, config
+//@   ensures PAIR: result.1 == nil ==> result.0 != nil
+
+//@ func (*Server).RunControlSession
+//@   tags C08
+//@   safety
+//@   requires s != nil && conn != nil
+
+//@ func (*StatusCommandType).InitFromString
+//@   tags C08
+//@   safety
+//@ func (*StatusCommandType).InitFromJSON
+//@   tags C08
+//@   safety
+//@ func (*PingCommandType).InitFromString
+//@   tags C08
+//@   safety
+//@ func (*PingCommandType).InitFromJSON
+//@   tags C08
+//@   safety
+//@ func (*ConnectCommandType).InitFromString
+//@   tags C08
+//@   safety
+//@ func (*ConnectCommandType).InitFromJSON
+//@   tags C08
+//@   safety
+//@ func (*TracerouteCommandType).InitFromString
+//@   tags C08
+//@   safety
+//@ func (*TracerouteCommandType).InitFromJSON
+//@   tags C08
+//@   safety
+//@ func (*ReloadCommandType).InitFromString
+//@   tags C08
+//@   safety
+//@ func (*ReloadCommandType).InitFromJSON
+//@   tags C08
+//@   safety
